@@ -21,11 +21,11 @@ func init() {
 	property("C13",
 		"Static conformance of constant substitution: (a) every token literal that is accumulated into an argument, operand, comparison value, case value, table-entry field, mart item or constant value passes through tryReplaceWithConstant (the only exceptions are literal parentheses); (b) names (identifiers, labels, map script names, movement steps) and text are never passed through it; (c) a constant is stored only after the duplicate check, its value is scanned up to the next top-level keyword; (d) the helper is a pure lookup that returns its argument when the name is not a constant.",
 		[]string{"that textual and token-wise replacement coincide for multi-token values is not decided"},
-		"C13.a", "C13.b", "C13.c", "C13.d", "C10.a", "C14.c", "C20.c", "C13.e")
+		"C13.a", "C13.b", "C13.c", "C13.d", "C10.a", "C14.c", "C20.c", "C13.e", "C19.e")
 	property("C14",
 		"Static conformance of list handling: (a) a movement multiplier is accepted exactly in [1, 9999], must be an INT, and expands to exactly that many copies; (b) the movement emitter writes the terminator exactly once on every path and nothing after it; (c) the mart emitter writes '.align 2' first, stops at the first item equal to ITEM_NONE — tested on the very value it would write — and writes the terminator once, unconditionally, after the loop; items and their tokens are parallel; (d) list parsers append each identifier once and advance on every iteration.",
 		[]string{"go/ssa lowering is faithful to the source"},
-		"C14.a", "C14.b", "C14.c", "C14.d", "C06.b", "C12.f", "C12.g")
+		"C14.a", "C14.b", "C14.c", "C14.d", "C06.b", "C12.f", "C12.g", "C13.c", "C12.a")
 
 	register(&Rule{ID: "C12.f", Doc: "every parsed poryswitch case is recorded under its own name, whatever its content", Floor: 5, Run: c12f})
 	register(&Rule{ID: "C13.e", Doc: "no decision depends on how many tokens a substituted value was written with", Floor: 1, Run: c13e})
@@ -574,67 +574,118 @@ func c13b(c *Ctx) {
 }
 
 func c13c(c *Ctx) {
+	seven := []string{"CONST", "MAPSCRIPTS", "MART", "MOVEMENT", "RAW", "SCRIPT", "TEXT"}
+	// the set may be a table (checked here) or be spelled by a predicate (read below)
 	tlName := c.W.GlobalNamed("parser", "topLevelTokens", "map[token.Type]bool")
-	topLevelStopRe := regexp.MustCompile(`^-@parser\.` + regexp.QuoteMeta(tlName) + `\[\$0\.peekToken(?:![A-Za-z0-9]+)?\.Type\](#1)?$`)
-	tbl, ok := c.globalMapLiteral("parser", tlName)
-	if !ok {
-		c.Unk("anchor:parser.topLevelTokens", "-", "topLevelTokens not found")
-		return
+	tbl, hasTbl := c.globalMapLiteral("parser", tlName)
+	if hasTbl {
+		var got []string
+		for k := range tbl {
+			got = append(got, k)
+		}
+		sort.Strings(got)
+		c.Check(fmt.Sprint(got) == fmt.Sprint(seven), "topLevelTokens", "parser/parser.go", "the constant value scan stops at the seven top-level keywords", fmt.Sprintf("top-level keyword set is %v, expected %v", got, seven))
 	}
-	want := []string{"CONST", "MAPSCRIPTS", "MART", "MOVEMENT", "RAW", "SCRIPT", "TEXT"}
-	var got []string
-	for k := range tbl {
-		got = append(got, k)
-	}
-	sort.Strings(got)
-	c.Check(fmt.Sprint(got) == fmt.Sprint(want), "topLevelTokens", "parser/parser.go", "the constant value scan stops at the seven top-level keywords", fmt.Sprintf("top-level keyword set is %v, expected %v", got, want))
 	fn := c.Fn("parser.Parser.parseConstant")
 	if fn == nil {
 		return
 	}
-	allTrue := true
-	for _, v := range tbl {
-		allTrue = allTrue && v == "true"
-	}
-	// the scan loop exits on topLevelTokens[peek.Type] or EOF
-	okStop := false
-	instrs(fn, func(in ssa.Instruction) {
-		if lk, isLk := in.(*ssa.Lookup); isLk && lk.CommaOk && c.term(fn, lk.X) == "@parser."+tlName && strings.Contains(c.term(fn, lk.Index), "peekToken") {
-			okStop = true
+	// the scan advances exactly while the next token is none of the seven keywords and the input
+	// is not exhausted — however the test is spelled (table lookup, predicate helper, comparisons)
+	n := 0
+	for _, ci := range callsIn(fn) {
+		if !strings.HasSuffix(calleeName(ci), "/parser.Parser).nextToken") {
+			continue
 		}
-	})
-	// ... or: every advance inside the scan loop happens only when the next token is not in the set
-	// (a lookup made by a predicate helper is read through)
-	if !okStop {
-		n := 0
-		okAll := true
-		for _, ci := range callsIn(fn) {
-			if !strings.HasSuffix(calleeName(ci), "/parser.Parser).nextToken") {
-				continue
+		b := ci.Block()
+		inLoop := false
+		for _, blk := range fn.Blocks {
+			if isLoopHeader(blk) && loopBody(blk)[b] {
+				inLoop = true
 			}
-			b := ci.Block()
-			inLoop := false
-			for _, blk := range fn.Blocks {
-				if isLoopHeader(blk) && loopBody(blk)[b] {
-					inLoop = true
+		}
+		if !inLoop {
+			continue
+		}
+		n++
+		d := c.PC(fn).canonOf(c.PC(fn).At(b))
+		// only what is said about the tokens of this iteration matters
+		d = dropAtoms(d, func(a string) bool { return !strings.Contains(a, "!L") })
+		peekRe := regexpMust(`\$0\.peekToken![A-Za-z0-9]+\.Type`)
+		curRe := regexpMust(`\$0\.curToken![A-Za-z0-9]+\.Type`)
+		peekT, curT := "", ""
+		for _, at := range dnfAtoms(d) {
+			if m := peekRe.FindString(at); m != "" {
+				peekT = m
+			}
+			if m := curRe.FindString(at); m != "" {
+				curT = m
+			}
+		}
+		// a lookup in the (checked) table stands for "is one of its keys"
+		if hasTbl {
+			lookup := regexpMust(`^@parser\.` + regexp.QuoteMeta(tlName) + `\[(.*)\](#1)?$`)
+			open := dnf{unknown: d.unknown}
+			for _, cj := range d.cs {
+				alts := []conj{{}}
+				for _, l := range cj {
+					var repl []conj
+					if m := lookup.FindStringSubmatch(l[1:]); m != nil {
+						if l[0] == '+' {
+							for _, k := range seven {
+								repl = append(repl, conj{fmt.Sprintf("+(%s == %q)", m[1], k)})
+							}
+						} else {
+							var neg conj
+							for _, k := range seven {
+								neg = append(neg, fmt.Sprintf("-(%s == %q)", m[1], k))
+							}
+							repl = []conj{neg}
+						}
+					} else {
+						repl = []conj{{l}}
+					}
+					var next []conj
+					for _, a := range alts {
+						for _, r := range repl {
+							if m2, ok := conjMerge(a, r); ok {
+								next = append(next, m2)
+							}
+						}
+					}
+					alts = next
+				}
+				open.cs = append(open.cs, alts...)
+			}
+			open.cs = simplify(open.cs)
+			d = open
+		}
+		ok := peekT != "" && curT != ""
+		if ok {
+			var want conj
+			for _, k := range seven {
+				want = append(want, fmt.Sprintf("-(%s == %q)", peekT, k))
+			}
+			want = append(want, fmt.Sprintf("-(%s == %q)", curT, "EOF"))
+			dom := map[string][]string{peekT: append(append([]string{}, seven...), "EOF", "@other"), curT: {"EOF", "@other"}}
+			// further type names the test mentions belong to the domain too
+			for _, at := range dnfAtoms(d) {
+				if strings.HasPrefix(at, "("+peekT+` == "`) {
+					v := strings.TrimSuffix(strings.TrimPrefix(at, "("+peekT+` == "`), `")`)
+					known := false
+					for _, x := range dom[peekT] {
+						known = known || x == v
+					}
+					if !known {
+						dom[peekT] = append(dom[peekT], v)
+					}
 				}
 			}
-			if !inLoop {
-				continue
-			}
-			n++
-			hit := false
-			for _, l := range c.mustLits(fn, b) {
-				if m := topLevelStopRe.FindStringSubmatch(l); m != nil {
-					// `tbl[k]` means membership only while every entry is true
-					hit = m[1] != "" || allTrue
-				}
-			}
-			okAll = okAll && hit
+			ok = dnfEquivDomain(d, mkDNF([]string(want)), dom)
 		}
-		okStop = n > 0 && okAll
+		c.Check(ok, "parseConstant/stops-at-top-level", c.W.Pos(ci.Pos()), "the value scan goes on exactly while the next token is not a top-level keyword and the input is not exhausted", "the constant value scan advances under ["+d.String()+"], expected exactly: next token is none of "+fmt.Sprint(seven)+" and the current token is not EOF (a value would end early, or swallow the statement that follows)")
 	}
-	c.Check(okStop, "parseConstant/stops-at-top-level", c.W.FuncPos(fn), "value scan tests the next token against the top-level keyword set", "the constant value scan no longer stops at the next top-level keyword")
+	c.Check(n > 0, "parseConstant/scan-loop", c.W.FuncPos(fn), "scan loop found", "cannot find the loop that collects the constant's value")
 }
 
 func c13d(c *Ctx) {
